@@ -223,3 +223,32 @@ prop(
     assumptions=["events are injected at quiescence: a tick racing with Shutdown under the real scheduler is an acknowledged TODO in the code and not what the property quantifies over",
                  "testing/synctest of Go 1.24.2 (GOEXPERIMENT=synctest); the relative order of context cancellation and error handling inside one refresh is not constrained"],
 )
+
+prop(
+    "C19",
+    "write-level monitor: a recording io.Writer keeps every Write call; for each (handler, record) the reference line is produced by a plain slog.TextHandler with the same options from r.Clone() plus the attributes accumulated along the "
+    "handler's derivation path; the observed bytes are parsed with encoding/json and must be exactly one newline-terminated object with members severity (ERROR iff level >= Error) and message (== reference line). Derivation trees over every "
+    "attribute-count vector {0,1,2,3}^d (3 siblings per level, all derived before any logs, 4 logging orders), one Record handed to two siblings, Enabled on levels -8..12, 6 option sets (nil, levels, ReplaceAttr compositions, AddSource), "
+    "hostile messages/keys/values of every slog.Kind. Concurrent stage under -race: 2..32 goroutines log records with unique ids through a 7-handler tree onto ONE shared writer - deliberately unsynchronised in even rounds so the race "
+    "detector reports a missing lock, counting overlapping Writes in odd rounds - and the multiset of written lines must equal the multiset of reference lines. A derivation tree / round is one case",
+    [st("sequential", "c19", "TestSequential", timeout_q=600, timeout_t=2400), st("concurrent", "c19", "TestConcurrent", race=True, timeout_q=600, timeout_t=2400)],
+    floors=[dict(stage="sequential", key="evaluations", min=100_000), dict(stage="concurrent", key="records", min=50_000)],
+    assumptions=[STDLIB, "key order and escaping style of the JSON are not part of the property (semantic comparison)", "records on which the reference text handler itself panics are not compared (counted)"],
+)
+
+prop(
+    "C20",
+    "per-request-id trace checker: every request carries one id in URL, header, body, host, remote address and a context value; the wrapped handler checks them against each other, logs through the context logger and answers from a per-id script "
+    "(nothing / Write only / WriteHeader(code in 200..599) / 1xx then code); the base logger is a recording slog.Handler in two legal flavours (copies the attrs in WithAttrs / retains the slice and reads it at Handle time) that yields "
+    "inside Enabled and Handle; an offline checker groups records and responses by id: one started, one finished with the code that invocation set (200 when none), one handler record, all carrying that request's host/method/raddr/request_uri, "
+    "and the client got exactly what its invocation wrote. Concurrency: direct ServeHTTP from 2..64 goroutines with an in-handler barrier that provably holds K requests inside the handler at once and releases them in seeded orders (all "
+    "orders for K<=4), several batches per middleware so pooled objects are reused, then sequential requests alternating scripts; a real httptest.Server on loopback with keep-alive clients; under -race and again with GOMAXPROCS=2. "
+    "Order: every permutation of up to 5(7) tracing middlewares, the same slice spread into Wrap repeatedly. A barrier round / middleware list is one case",
+    [st("order", "c20", "TestOrder", timeout_q=300, timeout_t=900),
+     st("isolation", "c20", "TestIsolation", race=True, timeout_q=900, timeout_t=3000),
+     st("isolation_p2", "c20", "TestIsolation", timeout_q=900, timeout_t=3000, env={"GOMAXPROCS": "2"}),
+     st("server", "c20", "TestServer", race=True, timeout_q=900, timeout_t=3000)],
+    floors=[dict(stage="isolation", key="barriers_with_two_or_more_requests_inside_the_handler", min=1000), dict(stage="isolation", key="requests", min=20_000),
+            dict(stage="isolation_p2", key="requests", min=20_000), dict(stage="server", key="requests", min=2_000), dict(stage="order", key="middleware_lists", min=300)],
+    assumptions=["handlers set at most one final status code (a superfluous second WriteHeader is outside the property)", "the recording slog.Handler stays inside the slog.Handler contract (it may retain the WithAttrs slice for the lifetime of the request)"],
+)
